@@ -5,16 +5,19 @@ buffer is the remapped pin bytes each incremented by 0x30 (A5/A6); the 4..10 len
 dominates hashing and yields None otherwise (A1); verify_client_pin_hash returns true only
 as the result of a whole-array comparison of the computed hash with the presented one on the
 Some arm, false on None, and passes (pin, seed, server_salt, client_salt) in order (A3).
-NOT decided: remap_pin_grid yields a permutation; pin_to_bytes yields the decimal digits; the
-position-lookup unwrap cannot fail (loop-algorithm facts, DESIGN §4 C16)."""
+The two loop algorithms are decided as shapes (rules/algos.py): pin_to_bytes is "digits by
+repeated % 10, / 10, reversed", remap_pin_grid is the factorial-number-system decoding of the
+seed over [0..9].  NOT decided: that these algorithms have the stated mathematical property
+(decimal expansion / permutation) - trusted paper lemmas; the position-lookup unwrap cannot
+fail (follows from the permutation lemma)."""
 import cfg
 from rules import util
 from rules.util import P, canon, show_b, strip
 from symex import show, walk
 
 EXPLANATION = __doc__
-TRUSTED = ["rustc / extractor", "SHA-1 collision resistance"]
-NOT_DECIDED = ["remap_pin_grid produces a permutation determined by seed mod 10!", "pin_to_bytes produces the decimal digits", "the position lookup's unwrap() never fails"]
+TRUSTED = ["rustc / extractor", "SHA-1 collision resistance", "repeated % 10, / 10 yields the decimal digits least significant first", "factorial-number-system decoding over [0..9] yields a permutation determined by seed mod 10!"]
+NOT_DECIDED = ["the two arithmetic lemmas themselves (the code is decided to BE those algorithms)", "the position lookup's unwrap() never fails (a consequence of the permutation lemma)"]
 FLOORS = {"transcript": 1, "gate": 1, "wrapper": 3, "digits": 3, "layout": 3}
 HF = "pin::calculate_hash"
 VF = "pin::verify_client_pin_hash"
